@@ -121,7 +121,7 @@ def main():
     ev = {e["case"]: e for e in events}
     chk.cov["evaluations"] = len(events)
     chk.cov["distinct_nontrivial"] = sum(1 for c in cases if len(c["body"]) > 0)
-    chk.cov["rule"] = (f"every module body of <= {3 if thorough else 2} items from the {40}-template catalogue of spec/Items.tla "
+    chk.cov["rule"] = (f"every module body of <= {3 if thorough else 2} items from the {42}-template catalogue of spec/Items.tla "
                        "(every visibility x qualifier combination of fns, private fns, consts/statics with brace initialisers, "
                        "structs, impls, nested mods, extern blocks, macros, uses, types); non-trivial = non-empty body")
     chk.cov["exhaustive"] = True
